@@ -479,14 +479,14 @@ def _behaviours(ctx: Ctx, module: str, cfg: str, num: int, depth: int, seed: int
     return out
 
 
-def thread_year_start_events(ctx: Ctx, rnd: random.Random, nbeh: int, cal_ids: list, seed: int, tag: str) -> list:
+def thread_year_start_events(ctx: Ctx, rnd: random.Random, nbeh: int, cal_ids: list, seed: int, tag: str, threads: str = "t1, t2") -> list:
     """Per-query "ys" events (Trace_Caches) from TLC-simulated two-thread schedules enforced on a fresh calculator of each of
     the given calendars: what LocalDate(y, 1, 1) -> day number answers while another thread fills colliding cache slots.
     Used by C01/C02 as well: a calendar must map dates to days the same way whatever other threads are asking."""
     from pyoda_time import CalendarSystem
 
-    cfg = YSC.format(threads="t1, t2", keys="0, 1, 2, 3, 4, 5, 6, 7", nops=2, view="", invs="")
-    behs = _behaviours(ctx, "MC_YearStartCache", cfg, nbeh, 40, seed, tag)
+    cfg = YSC.format(threads=threads, keys="0, 1, 2, 3, 4, 5, 6, 7", nops=2, view="", invs="")
+    behs = _behaviours(ctx, "MC_YearStartCache", cfg, nbeh, 40 if threads == "t1, t2" else 60, seed, tag)
     files_cal = ("pyoda_time/calendars/_year_month_day_calculator.py",)
     out = []
     for b in behs:
@@ -527,6 +527,9 @@ def threaded_events(ctx: Ctx, rnd: random.Random, q: bool) -> list:
     from pyoda_time.time_zones._tzdb_date_time_zone_source import TzdbDateTimeZoneSource
 
     evs = []
+    # three threads on one calculator (TLC-simulated schedules of the same model with three threads), every arithmetic calendar in turn
+    evs += thread_year_start_events(ctx, rnd, 20 if q else 300, [c for c in CalendarSystem.ids if c not in ("Badi", "Um Al Qura")], ctx.seed + 41,
+                                    "ysc3", threads="t1, t2, t3")
     # schedules from the year-start-cache model (two threads, two lookups each, all line-level interleavings sampled by TLC)
     cfg = YSC.format(threads="t1, t2", keys="0, 1, 2, 3, 4, 5, 6, 7", nops=2, view="", invs="")
     behs = _behaviours(ctx, "MC_YearStartCache", cfg, 60 if q else 600, 40, ctx.seed + 3, "ysc")
